@@ -130,5 +130,16 @@ func Average(v reflect.Value) (float64, error) {
 		sum += n
 	}
 
+	if math.IsInf(sum, 0) {
+		// The sum is out of range although the mean is not:
+		// divide before adding.
+		sum = 0
+		for i := 0; i < v.Len(); i++ {
+			n, _ := jtypes.AsNumber(v.Index(i))
+			sum += n / float64(v.Len())
+		}
+		return sum, nil
+	}
+
 	return sum / float64(v.Len()), nil
 }
